@@ -10,7 +10,7 @@ OBL = []
 # obligations generated for both build configurations (C20); kept small so that the quick check of
 # C20 stays within minutes - the thorough tier adds every obligation listed with two feature sets
 C20_QUICK_DUAL = {"leaf_decode_id13", "leaf_mode_a_to_mode_c", "leaf_ac13_read", "leaf_ac12_read", "leaf_identity_read",
-                  "leaf_ident_read_mff", "cpr_nl", "dfr_df00", "dfr_df11", "dfr_df19", "dfr_df24", "dfr_df17_me58", "dfr_df20_mb10", "rdd_df11"}
+                  "leaf_ident_read_mff", "cpr_nl"}
 
 
 def add(name, crate, fn, args="", props=(), unwind=None, tier="quick", stubs=("fmt",),
@@ -264,16 +264,6 @@ for _len in range(9):
 
 add("leaf_icao_text", "adsb_deku", L + "obl_icao_text", props=["C04", "C01"], unwind=10, stubs=[],
     domain="all 2^24 addresses (FromStr half; Display natively)", functions=["<ICAO as FromStr>::from_str"], timeout=900)
-
-# ---- C20: the structural decoder in both build configurations (plain byte-copying reader) --------
-for _nm, _b0, _b4 in (("df00", 0x02, -1), ("df11", 0x5d, -1), ("df19", 0x98, -1), ("df24", 0xc5, -1), ("df17_me58", 0x8d, 0x58), ("df20_mb10", 0xa0, 0x10),
-                      ("df17_me99", 0x8d, 0x99), ("df17_mef8", 0x8d, 0xf8), ("df16", 0x80, -1), ("df05", 0x28, -1), ("df21_mb30", 0xa8, 0x30)):
-    add("dfr_" + _nm, "adsb_deku", F + "obl_df_plain_reader", args="0x%02x, %d" % (_b0, _b4), props=["C20", "C04", "C02"], unwind=16, kani_flags=FAST,
-        features=("std", "alloc"), timeout=900, functions=DF_FN, tier="quick" if _nm in ("df00", "df11", "df19", "df24", "df17_me58", "df20_mb10") else "thorough",
-        domain="complete frames with byte 0 = 0x%02x%s, every other bit symbolic; bytes served by a plain byte-copying reader" % (_b0, (", byte 4 = 0x%02x" % _b4) if _b4 >= 0 else ""))
-add("rdd_df11", "adsb_deku", "crate::verif_obl_reader::obl_reader_frag", args="0x5d, -1, 2, 0", props=["C20", "C19", "C02"], unwind=40, kani_flags=FAST,
-    features=("std", "alloc"), timeout=900, functions=["Frame::from_reader", "Frame::read_crc", "ReaderCrc"],
-    domain="complete DF11 frames, all other bits symbolic; Frame::from_reader over a plain reader (no fragmentation) vs Frame::from_bytes")
 
 
 def select(prop, tier):
